@@ -493,10 +493,60 @@ impl DbInner {
 		}))
 	}
 
+	/// Checks every operation of a transaction before anything is claimed or published, so that
+	/// a rejected transaction leaves no trace.
+	fn validate_changes(&self, tx: &[(ColId, Operation<Vec<u8>, Vec<u8>>)]) -> Result<()> {
+		if let Some(err) = &*self.bg_err.lock() {
+			return Err(Error::Background(err.clone()))
+		}
+		for (col, change) in tx {
+			let options = &self.options.columns[*col as usize];
+			if options.multitree {
+				match change {
+					Operation::Set(..) | Operation::Reference(..) | Operation::Dereference(..) =>
+						return Err(Error::InvalidConfiguration(
+							"Invalid operation for multitree column".to_string(),
+						)),
+					Operation::InsertTree(_, node) => HashColumn::check_node_representable(node)?,
+					Operation::ReferenceTree(..) =>
+						if !options.append_only && !options.ref_counted {
+							return Err(Error::InvalidInput(format!("No Rc for column {col}")))
+						},
+					Operation::DereferenceTree(key) => {
+						if options.append_only {
+							return Err(Error::InvalidConfiguration(
+								"Attempting to dereference a tree from an append_only column."
+									.to_string(),
+							))
+						}
+						if self.get(*col, key, false)?.is_none() {
+							return Err(Error::InvalidConfiguration(
+								"No entry for tree root".to_string(),
+							))
+						}
+					},
+				}
+			} else {
+				match change {
+					Operation::InsertTree(..) |
+					Operation::ReferenceTree(..) |
+					Operation::DereferenceTree(..) =>
+						return Err(Error::InvalidInput(format!("Invalid operation for column {col}"))),
+					Operation::Reference(..) if !options.ref_counted =>
+						return Err(Error::InvalidInput(format!("No Rc for column {col}"))),
+					_ => (),
+				}
+			}
+		}
+		Ok(())
+	}
+
 	fn commit_changes<I>(&self, tx: I) -> Result<()>
 	where
 		I: IntoIterator<Item = (ColId, Operation<Vec<u8>, Vec<u8>>)>,
 	{
+		let tx: Vec<_> = tx.into_iter().collect();
+		self.validate_changes(&tx)?;
 		let mut commit: CommitChangeSet = Default::default();
 		for (col, change) in tx.into_iter() {
 			if self.options.columns[col as usize].btree_index {
